@@ -445,6 +445,23 @@ func nameHash(s string) uint64 {
 	return h ^ h>>31
 }
 
+// resolveIdx is the stand-in resolver: indexes into vIP4 / vIP6 (-1: no address of that family)
+// as a fixed function of the lower-case host name and the per-query variant.
+func resolveIdx(name string, ipvar int) (i4, i6 int) {
+	h := nameHash(name)
+	i4, i6 = -1, -1
+	switch ipvar {
+	case 1:
+		i4 = int(h % uint64(len(vIP4)))
+		i6 = int((h >> 8) % uint64(len(vIP6)))
+	case 2:
+		i4 = int((h >> 16) % uint64(len(vIP4)))
+	case 3:
+		i6 = int((h >> 24) % uint64(len(vIP6)))
+	}
+	return
+}
+
 // query op: A = [caller, hk, sub, dom, glue, case, dots, ipvar, rep, proto, port, call]
 // The resolved addresses are a fixed function of (normalised name, ipvar): the deterministic
 // stand-in for a resolver stage in front of the ACL.
@@ -456,15 +473,13 @@ func buildQuery(op hysim.Op, ncall int) mQuery {
 	switch hk {
 	case 0:
 		n := mkName(vSubs[clampIdx(op.Arg(2), len(vSubs))], vDoms[clampIdx(op.Arg(3), len(vDoms))], op.Arg(4)&1 == 1)
-		h := nameHash(n)
-		switch ipvar {
-		case 1:
-			q.v4 = netip.MustParseAddr(vIP4[h%uint64(len(vIP4))])
-			q.v6 = netip.MustParseAddr(vIP6[(h>>8)%uint64(len(vIP6))])
-		case 2:
-			q.v4 = netip.MustParseAddr(vIP4[(h>>16)%uint64(len(vIP4))])
-		case 3:
-			q.v6 = netip.MustParseAddr(vIP6[(h>>24)%uint64(len(vIP6))])
+		if i4, i6 := resolveIdx(n, ipvar); true {
+			if i4 >= 0 {
+				q.v4 = netip.MustParseAddr(vIP4[i4])
+			}
+			if i6 >= 0 {
+				q.v6 = netip.MustParseAddr(vIP6[i6])
+			}
 		}
 		n = mixCase(n, clampIdx(op.Arg(5), 3))
 		n += strings.Repeat(".", clampIdx(op.Arg(6), 3))
@@ -572,8 +587,20 @@ func genACL(r *hysim.Rand, tier string, mode int) *hysim.Script {
 	fdom := []int{r.Intn(len(vDoms)), r.Intn(len(vDoms)), r.Intn(len(vDoms))}
 	fsub := []int{r.Intn(len(vSubs)), r.Intn(len(vSubs)), 0}
 	fport := []int64{vPort[r.Intn(len(vPort))], vPort[r.Intn(len(vPort))], vPort[r.Intn(len(vPort))]}
-	fip4 := []int{r.Intn(len(vIP4)), r.Intn(len(vIP4)), r.Intn(len(vIP4))}
-	fip6 := []int{r.Intn(len(vIP6)), r.Intn(len(vIP6))}
+	fip4 := []int{r.Intn(len(vIP4))}
+	fip6 := []int{r.Intn(len(vIP6))}
+	for _, d := range fdom { // IP rules mostly name addresses the focus hosts resolve to
+		n := mkName(vSubs[fsub[r.Intn(len(fsub))]], vDoms[d], false)
+		for v := 1; v <= 3; v++ {
+			i4, i6 := resolveIdx(n, v)
+			if i4 >= 0 {
+				fip4 = append(fip4, i4)
+			}
+			if i6 >= 0 {
+				fip6 = append(fip6, i6)
+			}
+		}
+	}
 	pickPort := func() int64 {
 		if r.Chance(3, 4) {
 			return fport[r.Intn(len(fport))]
@@ -581,7 +608,7 @@ func genACL(r *hysim.Rand, tier string, mode int) *hysim.Script {
 		return vPort[r.Intn(len(vPort))]
 	}
 
-	nrules := r.Pick(0, 1, 2, 3, 4, 5, 6, 8, 10, 12)
+	nrules := r.Pick(0, 1, 2, 3, 4, 5, 6, 8, 8, 10, 12, 12)
 	if tier == "thorough" && r.Chance(1, 4) {
 		nrules = r.Range(12, 40)
 	}
@@ -818,6 +845,9 @@ func (st *runStats) noteQuery(q *mQuery, nmatch int) {
 	} else {
 		st.distinct++
 	}
+	if nmatch >= 1 {
+		x.Probe("some-rule-matches")
+	}
 	if nmatch >= 2 {
 		x.Probe("several-rules-match")
 	}
@@ -1023,7 +1053,7 @@ func (f *fakeOB) udpPolicy(a *AddrEx) error {
 	if f.w.deny == 0 {
 		return nil
 	}
-	h := nameHash(fmt.Sprintf("%s/%s/%d", f.label, a.Host, a.Port))
+	h := nameHash(fmt.Sprintf("%s/%s/%d", f.label, normName(a.Host), a.Port)) // the policy is per host, not per spelling
 	if h%16 < f.w.deny {
 		return errFakeDenied
 	}
@@ -1052,6 +1082,9 @@ type engSetup struct {
 	resolve map[string]string
 	deflt   string
 	names   []string // rule outbound index -> name
+	// c08acl: a CheckUDP that reaches no outbound and is not refused is judged by the caller
+	// (class check-allows-rejected) instead of being reported as a vanished request
+	checkJudgedByCaller bool
 }
 
 // newEngSetup builds the outbound list from the script: ob1 and a user-defined direct always,
@@ -1158,6 +1191,10 @@ func (s *engSetup) call(eng PluggableOutbound, q *mQuery, meth int) engResult {
 	}
 	if c == nil {
 		res.rejected = err == errRejected
+		if !res.rejected && meth == 2 && s.checkJudgedByCaller {
+			res.desc = fmt.Sprintf("no outbound, err=%v", err)
+			return res
+		}
 		if !res.rejected {
 			x.Violate("request-vanished", "request %s reached no outbound and was not rejected (err=%v)", q, err)
 		}
